@@ -890,7 +890,16 @@ pub fn copy_case(a: &[u128]) -> Vec<u128> {
     // flip().flip() on the memory outboards
     let pre = PreOrderMemOutboard { root: from.root(), tree: t, data: refenc::outboard(&data, bs, false) };
     let post = PostOrderMemOutboard { root: from.root(), tree: t, data: refenc::outboard(&data, bs, true) };
-    let ff = pre.flip().flip() == pre && post.flip().flip() == post && pre.flip() == post && post.flip() == pre;
+    let mut ff = pre.flip().flip() == pre && post.flip().flip() == post && pre.flip() == post && post.flip() == pre;
+    // flipping an outboard held in an oversized buffer (slots are addressed from the start: the post-order bytes with the
+    // size suffix still attached, a pre-order outboard at the start of a page-rounded buffer) invents nothing
+    let mut post_long = post.data.clone();
+    post_long.extend_from_slice(&(data.len() as u64).to_le_bytes());
+    let mut pre_long = pre.data.clone();
+    pre_long.extend_from_slice(&[0x77u8; 100]);
+    let post_l = PostOrderMemOutboard { root: from.root(), tree: t, data: post_long };
+    let pre_l = PreOrderMemOutboard { root: from.root(), tree: t, data: pre_long };
+    ff = ff && post_l.flip() == pre && pre_l.flip() == post;
     vec![io_rc(&r), digest(&to.data()) as u128, loads_digest(&to), loads_digest(&from), b(ff)]
 }
 
